@@ -327,6 +327,13 @@ func (c *simConn) SetWriteDeadline(t time.Time) error { return nil }
 func (n *simNet) dial(la, ra *net.TCPAddr, tagLocal, tagRemote string) (*simConn, *simConn, error) {
 	n.mu.Lock()
 	l := n.lis[ra.String()]
+	if l == nil { // a listener on the wildcard address accepts connections to every local address
+		for _, wild := range []net.IP{net.IPv4zero.To4(), net.IPv6unspecified} {
+			if x := n.lis[(&net.TCPAddr{IP: wild, Port: ra.Port}).String()]; x != nil && l == nil {
+				l = x
+			}
+		}
+	}
 	if la.Port == 0 {
 		n.nextPort++
 		la = &net.TCPAddr{IP: la.IP, Port: n.nextPort}
